@@ -54,6 +54,6 @@ Cast(kind, text) ==
 \* texts that are no value of the kind under any reading (cross-type texts such as "0.5" in an integer position that is a
 \* byte size are neither valid nor clearly invalid: not enforced)
 ClearlyInvalid(kind, text) ==
-  CASE kind = "boolean" -> text \in {"maybe", "3x", "x.y"}
+  CASE kind = "boolean" -> text \in {"maybe", "3x", "x.y", "1", "0", "t", "f", "T", "F", "2"}     \* Go's ParseBool spellings are no Compose booleans
     [] OTHER -> text \in {"maybe", "3x", "x.y"}
 =============================================================================
